@@ -293,25 +293,43 @@ def fn_calls(bi):
     return [s for s in bi.sites if s.callee.trait in ("Fn", "FnMut", "FnOnce") and s.callee.name in ("call", "call_mut", "call_once")]
 
 
+_HELPER_VIEWS = {}
+
+
+def helper_view(M, bi, a):
+    """BodyInfo of the private `async fn` whose future await `a` awaits, expressed in the caller's terms: the helper's
+    k-th parameter (upvar k of its coroutine) reads as the k-th argument of the call.  None if `a` awaits something else."""
+    from ..sites import BodyInfo
+    t = a.fut
+    if t is None or t[0] != "call" or len(t) < 4:
+        return None
+    site = bi.by_block.get(t[3])
+    if site is None or site.callee.indirect or not site.callee.local:
+        return None
+    fn_body = M.by_cdef.get(site.callee.cpath)
+    co = M.coroutine_of(fn_body) if fn_body is not None else None
+    if co is None:
+        return None
+    key = (id(M), co.def_, tuple(t[2]))
+    v = _HELPER_VIEWS.get(key)
+    if v is None:
+        v = BodyInfo(co, subst={k: arg for k, arg in enumerate(t[2])})
+        _HELPER_VIEWS[key] = v
+    return v
+
+
 def effective_body(M, bi):
-    """If an async body does nothing but `self.<local async helper>().await` (a drain loop moved into
-    a private `async fn`), analyse the helper's coroutine instead: it has the same `self` upvar."""
+    """If an async body does nothing but `<local async helper>(..).await` (a drain loop moved into a private `async fn`),
+    analyse the helper's coroutine instead, with its parameters read as the arguments it was given."""
     aw = awaits(bi)
     if len(aw) != 1 or group_next_awaits(bi):
         return bi
     a = aw[0]
-    t = a.fut
-    if t is None or t[0] != "call" or not t[2] or t[2][0] != cupvar(0):
-        return bi
-    site = bi.by_block.get(t[3])
-    if site is None or not site.callee.local:
-        return bi
-    fn_body = M.by_cdef.get(site.callee.cpath)
-    co = M.coroutine_of(fn_body) if fn_body is not None else None
-    if co is None:
+    hv = helper_view(M, bi, a)
+    if hv is None:
         return bi
     # the caller must do nothing else of substance: every return follows the awaited helper
     ready = bi.outcome_edges(a.site, "Ready")
     if not ready or not all(bi.guarded_by(r, ready) for r in bi.return_blocks):
         return bi
-    return M.info(co)
+    return hv
